@@ -465,4 +465,11 @@ func longPadded(emit func(string)) {
 			}
 		}
 	}
+	// comma lists: the only shape on which `fold` keeps reading tokens without the window filling up — limits on the
+	// number of tokens read show here (sizes kept small: the model is quadratic in the number of tokens)
+	for _, k := range []int{255, 256, 257, 511, 512, 513, 1023, 1024, 1025} {
+		emit("1" + strings.Repeat(", 1", k))
+		emit("1" + strings.Repeat(",1", k) + " union select 1")
+		emit("a" + strings.Repeat(",b", k) + "' or 1=1--")
+	}
 }
